@@ -6,7 +6,10 @@ package security
 //   0..1 salt, 2..3 master id, 4..7 contract, 8..11 signature, 12..14 target bit path, 15 permissions,
 //   16..19 target hash, 20..23 expiry (seconds since 2010, 0 = never) - all big-endian.
 
-import vs "github.com/emitter-io/emitter/internal/verifspec"
+import (
+	"github.com/emitter-io/emitter/internal/security/hash"
+	vs "github.com/emitter-io/emitter/internal/verifspec"
+)
 
 // the 32-bit murmur hash of a channel text is an uninterpreted function of the text in every contract of this package
 //@ opaque github.com/emitter-io/emitter/internal/security/hash.OfString
@@ -101,4 +104,103 @@ func post_SetTarget(k Key, old_k Key, res0 error) bool {
 	}
 	return vs.Forall(0, 12, func(i int) bool { return k[i] == old_k[i] }) && k[15] == old_k[15] &&
 		vs.Forall(20, 24, func(i int) bool { return k[i] == old_k[i] })
+}
+
+// ---------------------------------------------------------------------------------------------------------
+// ValidateChannel: does the key's target cover the requested channel? (C03)
+// The request's levels are what strings.Split returned for the channel text (recorded event; the string library
+// is outside the verified code). From the property statement: the request must be at least as deep as the target,
+// exactly as deep for an exact target - whether or not the request ends in '#'; a '+' in the request is accepted
+// only where the target is not a literal; and the levels, with non-literal positions masked by '+', must hash to
+// the key's target hash.
+
+func specTargetPath(k Key) uint32 { return uint32(k[12])<<16 | uint32(k[13])<<8 | uint32(k[14]) }
+
+// specTargetDepth is the number of levels of the target: 23 minus the index of the lowest set literal bit (0 = none)
+//@ loop specTargetDepth 0 unroll 23
+func specTargetDepth(tp uint32) int {
+	for i := 0; i < 23; i++ {
+		if (tp>>uint(i))&1 == 1 {
+			return 23 - i
+		}
+	}
+	return 0
+}
+
+//@ assume strings.Join iface
+//@ assume github.com/kelindar/binary.ToString iface
+
+//@ verify (Key).ValidateChannel pre=pre_ValidateChannel post=post_ValidateChannel_depth,post_ValidateChannel_plus,post_ValidateChannel_hash,post_ValidateChannel_complete props=C03
+//@ loop (Key).ValidateChannel 0 inv inv_ValidateChannel_depth
+//@ loop (Key).ValidateChannel 1 inv inv_ValidateChannel_idx,inv_ValidateChannel_wc,inv_ValidateChannel modifies=parts
+func pre_ValidateChannel(k Key, ch *Channel) bool { return len(k) == 24 && ch != nil && len(ch.Query) >= 1 }
+
+// specLiteral: level idx of the target is a literal (not '+')
+func specLiteral(tp uint32, idx int) bool { return idx <= 22 && (tp>>(22-uint32(idx)))&1 == 1 }
+
+func inv_ValidateChannel_idx(rangeindex int, parts []string) bool {
+	return -1 <= rangeindex && rangeindex < len(parts)
+}
+// the scan for the lowest literal bit: nothing found below bit i so far
+func inv_ValidateChannel_depth(i uint32, maxDepth int, targetPath uint32) bool {
+	return i <= 23 && maxDepth == 0 && targetPath&((1<<i)-1) == 0
+}
+
+// the masking loop never turns the request's last element into (or away from) "#": what Split returned still tells
+// whether the request ended in '#', and `parts` is still that result minus the '#'
+func inv_ValidateChannel_wc(wc bool, parts []string) bool {
+	p := specSplit()
+	return len(p) >= 1 && wc == (p[len(p)-1] == "#") && len(parts) == specRequestLevels()
+}
+func inv_ValidateChannel(k Key, rangeindex int, parts []string) bool {
+	tp := specTargetPath(k)
+	return vs.Forall(0, rangeindex+1, func(j int) bool { return !specLiteral(tp, j) || parts[j] != "+" })
+}
+
+// the request as ValidateChannel saw it: what strings.Split returned, minus a trailing "#" (not a level)
+func specSplit() []string { return vs.TraceRet[[]string](vs.TraceFind("strings.Split"), 0) }
+func specRequestLevels() int {
+	p := specSplit()
+	if p[len(p)-1] == "#" {
+		return len(p) - 1
+	}
+	return len(p)
+}
+
+// specCovers: the three conditions of the property statement, for a key with a non-empty bit path
+func specCoversDepth(tp uint32) bool {
+	n, d := specRequestLevels(), specTargetDepth(tp&0x7fffff)
+	if d == 0 {
+		d = n
+	}
+	exact := (tp>>23)&1 == 1
+	return n >= d && (!exact || n == d) // at least the target's depth; exactly it for an exact target, '#' or not
+}
+func specCoversPlus(tp uint32) bool {
+	p := specSplit()
+	return vs.Forall(0, specRequestLevels(), func(idx int) bool { return !specLiteral(tp, idx) || p[idx] != "+" })
+}
+func specCoversHash(k Key) bool {
+	j := vs.TraceFind("strings.Join")
+	n, d := specRequestLevels(), specTargetDepth(specTargetPath(k)&0x7fffff)
+	if d == 0 {
+		d = n
+	}
+	return j >= 0 && len(vs.TraceArg[[]string](j, 0)) == d && hash.OfString(vs.TraceRet[string](j, 0)) == specBE32(k, 16)
+}
+
+func specBitPathCase(k Key) bool { return specTargetPath(k) != 0 && vs.TraceFind("strings.Split") >= 0 }
+
+func post_ValidateChannel_depth(k Key, ch *Channel, res0 bool) bool {
+	return !res0 || !specBitPathCase(k) || specCoversDepth(specTargetPath(k))
+}
+func post_ValidateChannel_plus(k Key, ch *Channel, res0 bool) bool {
+	return !res0 || !specBitPathCase(k) || specCoversPlus(specTargetPath(k))
+}
+func post_ValidateChannel_hash(k Key, ch *Channel, res0 bool) bool {
+	return !res0 || !specBitPathCase(k) || specCoversHash(k)
+}
+func post_ValidateChannel_complete(k Key, ch *Channel, res0 bool) bool { // and nothing more is required
+	return res0 || !specBitPathCase(k) || !specCoversDepth(specTargetPath(k)) || !specCoversPlus(specTargetPath(k)) ||
+		vs.TraceFind("strings.Join") < 0 || !specCoversHash(k)
 }
